@@ -137,7 +137,7 @@ func RollbackPoints(path string) ([]*RollbackPoint, error) {
 // in time as represented by the RollbackPoint.
 // Rollback() should only be passed a RollbackPoint that came from the
 // same store using the RollbackPoints() API along with the index path.
-func Rollback(path string, to *RollbackPoint) error {
+func Rollback(path string, to *RollbackPoint) (err error) {
 	if to == nil {
 		return fmt.Errorf("Rollback: RollbackPoint is nil")
 	}
